@@ -29,6 +29,14 @@ Init == \/ /\ prop = "C05" /\ n \in 1..MaxN /\ bounded \in BOOLEAN
            /\ special \in {"none"} \cup (IF scaling THEN {"narrow_box"} ELSE {})
                                    \cup (IF ~scaling /\ mclass # "under" /\ x0class = "interior" /\ \A i \in 1..n : status[i] = "free" THEN {"solution_on_init_grid"} ELSE {})
                                    \cup (IF ~scaling /\ mclass # "under" /\ x0class = "interior" THEN {"tiny_sensitivities"} ELSE {})
+                                   \* start_on_active_face - the start lies on every bound that is active at the solution (multipliers large against the free
+                                   \*          variables' gradient) and the free variables start several initial radii from their optimum: every step is a step
+                                   \*          ALONG the face, with fixed variables whose gradient components dominate;
+                                   \* warm_start - the start is the solution itself up to 1e-8 .. 1e-6 in the free variables (a re-solve): the run consists of
+                                   \*          safety steps and radius reductions until rho is of that size, then one genuine step along the active face
+                                   \cup (IF bounded /\ mclass # "under" /\ x0class = "onbound" /\ nptclass = "n+1"
+                                            /\ (\E i \in 1..n : status[i] = "free") /\ (\E i \in 1..n : status[i] # "free")
+                                         THEN {"start_on_active_face", "warm_start"} ELSE {})
            /\ (mclass = "under" => n >= 2)
            /\ (~bounded => x0class = "interior")
         \/ /\ prop = "C06" /\ n \in 1..MaxN /\ bounded \in BOOLEAN /\ reg \in {"l1", "l2"}
